@@ -1,6 +1,7 @@
 package verifsim
 
 import (
+	"strings"
 	"crypto/sha256"
 	"encoding/hex"
 	"fmt"
@@ -16,6 +17,7 @@ type Event struct {
 	Seq  int    `json:"seq"`
 	T    int64  `json:"t"`
 	G    int    `json:"g,omitempty"` // canonical goroutine label (order of first seam use)
+	PG   int    `json:"pg,omitempty"` // label of the goroutine that created G, if that one had been seen at a seam before (not part of the hash)
 	K    string `json:"k"`           // kind, e.g. "write.enter"
 	Node int    `json:"node,omitempty"`
 	If   string `json:"if,omitempty"`
@@ -34,6 +36,7 @@ type Log struct {
 	start time.Time
 	ev    []Event
 	gmap  map[int]int
+	pmap  map[int]int // label -> label of the creating goroutine
 }
 
 // NewLog starts an event log whose time zero is start.
@@ -53,13 +56,36 @@ func (l *Log) Add(e Event) int {
 	if !ok {
 		lab = len(l.gmap) + 1
 		l.gmap[g] = lab
+		// who created this goroutine? (work handed to a helper goroutine still
+		// belongs to whoever asked for it: histories attribute it to the parent)
+		if l.pmap == nil {
+			l.pmap = make(map[int]int)
+		}
+		if p := parentGoid(); p != 0 {
+			if pl, ok := l.gmap[p]; ok {
+				l.pmap[lab] = pl
+			}
+		}
 	}
 	e.Seq = len(l.ev) + 1
 	e.T = int64(time.Since(l.start))
 	e.G = lab
+	e.PG = l.pmap[lab]
 	l.ev = append(l.ev, e)
+	// A system that keeps producing events while the fake clock (which only
+	// moves when every goroutine is blocked, or by the microsecond a simulated
+	// system call takes) hardly moves is spinning: the run would take for ever.
+	// Stop it where it can be reported; no plan comes anywhere near this many
+	// events within one second of fake time.
+	if n := len(l.ev); n > SpinLimit && e.T-l.ev[n-1-SpinLimit].T < int64(time.Second) {
+		panic(fmt.Sprintf("verifsim: spin: more than %d events within one second of fake time (at %v); the latest: %s %s %s", SpinLimit, time.Duration(e.T), e.K, e.If, e.S))
+	}
 	return e.Seq
 }
+
+// SpinLimit is the number of events within one second of fake time beyond which
+// a run is declared to be spinning.
+const SpinLimit = 20000
 
 // Events returns the events recorded so far (a copy of the slice header; events
 // are never mutated after being appended).
@@ -108,6 +134,25 @@ func goid() int {
 		i++
 	}
 	v, _ := strconv.Atoi(string(s[:i]))
+	return v
+}
+
+// parentGoid returns the id of the goroutine that created the calling one
+// ("created by f in goroutine N", the last line of its stack), 0 if unknown.
+func parentGoid() int {
+	b := make([]byte, 1<<16)
+	n := runtime.Stack(b, false)
+	s := string(b[:n])
+	i := strings.LastIndex(s, " in goroutine ")
+	if i < 0 || strings.LastIndex(s, "created by ") < 0 {
+		return 0
+	}
+	s = s[i+len(" in goroutine "):]
+	j := 0
+	for j < len(s) && s[j] >= '0' && s[j] <= '9' {
+		j++
+	}
+	v, _ := strconv.Atoi(s[:j])
 	return v
 }
 
